@@ -25,14 +25,14 @@ Definition is_container (t : Z) : bool := (t =? c_cJSON_Array) || (t =? c_cJSON_
 
 (** well-formedness of a tree to be printed (boolean, so it can be evaluated):
     every masked type that is reached is NULL/False/True/Number/String/Array/Object; valueint of a
-    Number is a C int; the bytes of strings and of member names are bytes (0..255).
+    Number is a C int and valuedouble an IEEE binary64 value; the bytes of strings and of member names are bytes (0..255).
     The children of a node that is not a container are not looked at (the printer ignores them). *)
 Fixpoint printable (n : node) : bool :=
   match n with
   | Node ty vs vi vd key ch =>
     let t := tymask ty in
     ty_ok t
-    && (if t =? c_cJSON_Number then int_range vi else true)
+    && (if t =? c_cJSON_Number then int_range vi && valid_dbl vd else true)
     && (if t =? c_cJSON_String then forallb is_byte (str_bytes vs) else true)
     && (if t =? c_cJSON_Object then forallb (fun c => forallb is_byte (str_bytes (n_key c))) ch else true)
     && (if is_container t then forallb printable ch else true)
@@ -54,13 +54,14 @@ Definition plain_int_b (t : bytes) : bool :=
 Record LibcStrictSpec (fmt_d : Z -> bytes) (fmt_g15 fmt_g17 : dbl -> bytes) : Prop := {
   (* "%d" of an int is an RFC 8259 number *)
   lss_d_rfc : forall z, int_range z = true -> rfc_number (fmt_d z) = true;
-  (* "%1.15g" / "%1.17g" of a finite double is an RFC 8259 number (the grammar admits e+20 / e-07) *)
-  lss_g15_rfc : forall d, is_finite d = true -> rfc_number (fmt_g15 d) = true;
-  lss_g17_rfc : forall d, is_finite d = true -> rfc_number (fmt_g17 d) = true;
+  (* "%1.15g" / "%1.17g" of a finite IEEE binary64 double ([valid_dbl]: SpecFloat's validity predicate,
+     i.e. a value a C double can hold) is an RFC 8259 number (the grammar admits e+20 / e-07) *)
+  lss_g15_rfc : forall d, is_finite d = true -> valid_dbl d = true -> rfc_number (fmt_g15 d) = true;
+  lss_g17_rfc : forall d, is_finite d = true -> valid_dbl d = true -> rfc_number (fmt_g17 d) = true;
   (* all three fit print_number's 26-byte scratch buffer with the terminator *)
   lss_d_len : forall z, int_range z = true -> zlen (fmt_d z) <= c_NUMBER_BUFFER_SIZE - 1;
-  lss_g15_len : forall d, is_finite d = true -> zlen (fmt_g15 d) <= c_NUMBER_BUFFER_SIZE - 1;
-  lss_g17_len : forall d, is_finite d = true -> zlen (fmt_g17 d) <= c_NUMBER_BUFFER_SIZE - 1;
+  lss_g15_len : forall d, is_finite d = true -> valid_dbl d = true -> zlen (fmt_g15 d) <= c_NUMBER_BUFFER_SIZE - 1;
+  lss_g17_len : forall d, is_finite d = true -> valid_dbl d = true -> zlen (fmt_g17 d) <= c_NUMBER_BUFFER_SIZE - 1;
   (* "%d" prints an optional minus sign and decimal digits, nothing else (used by int_plain only) *)
   lss_d_plain : forall z, int_range z = true -> plain_int_b (fmt_d z) = true
 }.
@@ -247,18 +248,18 @@ Section Strict.
 
   (** print_number's text for a finite double: an RFC number that fits the scratch buffer *)
   Lemma number_text_finite vi d :
-    int_range vi = true -> is_nan d || is_inf d = false ->
+    int_range vi = true -> valid_dbl d = true -> is_nan d || is_inf d = false ->
     rfc_number (number_text vi d) = true /\ zlen (number_text vi d) <= c_NUMBER_BUFFER_SIZE - 1.
   Proof.
-    intros Hi Hf. pose proof (finite_of_not_nan_inf d Hf) as Hfin.
+    intros Hi Hv Hf. pose proof (finite_of_not_nan_inf d Hf) as Hfin.
     unfold PrintDefs.number_text. rewrite Hf.
     destruct (deq d (dbl_of_int vi)).
     - split; [apply (lss_d_rfc _ _ _ L)|apply (lss_d_len _ _ _ L)]; exact Hi.
     - destruct (sscanf_lg (fmt_g15 d)) as [test|].
       + destruct (compare_double test d).
-        * split; [apply (lss_g15_rfc _ _ _ L)|apply (lss_g15_len _ _ _ L)]; exact Hfin.
-        * split; [apply (lss_g17_rfc _ _ _ L)|apply (lss_g17_len _ _ _ L)]; exact Hfin.
-      + split; [apply (lss_g17_rfc _ _ _ L)|apply (lss_g17_len _ _ _ L)]; exact Hfin.
+        * split; [apply (lss_g15_rfc _ _ _ L)|apply (lss_g15_len _ _ _ L)]; assumption.
+        * split; [apply (lss_g17_rfc _ _ _ L)|apply (lss_g17_len _ _ _ L)]; assumption.
+      + split; [apply (lss_g17_rfc _ _ _ L)|apply (lss_g17_len _ _ _ L)]; assumption.
   Qed.
 
   Lemma number_text_nonfinite vi d : is_nan d || is_inf d = true -> number_text vi d = lit_null.
@@ -310,7 +311,7 @@ Section Strict.
     printable (Node ty vs vi vd key ch) =
       let t := tymask ty in
       ty_ok t
-      && (if t =? c_cJSON_Number then int_range vi else true)
+      && (if t =? c_cJSON_Number then int_range vi && valid_dbl vd else true)
       && (if t =? c_cJSON_String then forallb is_byte (str_bytes vs) else true)
       && (if t =? c_cJSON_Object then forallb (fun c => forallb is_byte (str_bytes (n_key c))) ch else true)
       && (if is_container t then forallb printable ch else true).
@@ -370,7 +371,8 @@ Section Strict.
     destruct (t =? c_cJSON_Number) eqn:E4.
     { destruct (is_nan vd || is_inf vd) eqn:Ef.
       - rewrite (number_text_nonfinite _ _ Ef). eexists; split; [reflexivity|apply v_null].
-      - destruct (number_text_finite vi vd H2 Ef) as [Hr Hl].
+      - apply andb_true_iff in H2 as [H2 H2v].
+        destruct (number_text_finite vi vd H2 H2v Ef) as [Hr Hl].
         destruct (Z.ltb_spec (c_NUMBER_BUFFER_SIZE - 1) (zlen (number_text vi vd))) as [Hlt|_]; [lia|].
         eexists; split; [reflexivity|]. apply v_num. exact Hr. }
     destruct (t =? c_cJSON_Raw) eqn:E5.
@@ -463,7 +465,8 @@ Section Strict.
     destruct (t =? c_cJSON_True) eqn:E3; [exact I|].
     destruct (t =? c_cJSON_Number) eqn:E4.
     { destruct (is_nan vd || is_inf vd) eqn:Ef; [exact I|].
-      destruct (number_text_finite vi vd H2 Ef) as [_ Hl].
+      apply andb_true_iff in H2 as [H2 H2v].
+      destruct (number_text_finite vi vd H2 H2v Ef) as [_ Hl].
       cbn [jv_ok]. unfold zlen in Hl. change c_NUMBER_BUFFER_SIZE with 26 in Hl. lia. }
     destruct (t =? c_cJSON_String) eqn:E6. { cbn [jv_ok]. apply str_bytes_zero_free. }
     assert (HF : is_container t = true -> Forall (fun c => jv_ok (val_of c)) ch).
